@@ -91,6 +91,7 @@ int main(int argc, char **argv) {
     pid_t pid = fork();
     if (pid == 0) {
       sim::setChecking(true);
+      sim::resetEntropy();
       Data a = makeData(dataseed), b = makeData(dataseed);
       ((ref_t) sym(ref, "kref"))(n, a.in0, a.in1, a.out0, a.out1, a.fout);
       dump("REF", a);
